@@ -150,6 +150,7 @@ MUTANTS: Dict[str, List[M]] = {
         ("Dict arm writes in place", "_typehints.py", "        else:\n            val = val.copy()\n        if subtypehints is not None:\n            if subtypehints[0] == int:", "        if subtypehints is not None:\n            if subtypehints[0] == int:", "C08.a"),
     ],
     "C09": [
+        ("discard only for non-zero exits (seed C09-8C on the code after F60)", "_core.py", "        except BaseException:\n            _ActionPrintConfig.discard_print_config_request(self)", "        except BaseException as ex:\n            if getattr(ex, \"code\", 1):\n                _ActionPrintConfig.discard_print_config_request(self)", "C09.b"),
         ("argument loop discards the request only on SystemExit again (F60)", "_core.py", "        except BaseException:\n            _ActionPrintConfig.discard_print_config_request(self)", "        except SystemExit:\n            _ActionPrintConfig.discard_print_config_request(self)", "C09.b"),
         ("request removed only after the dump again (F60)", "_actions.py", "            dump_kwargs = parser.print_config\n            delattr(parser, \"print_config\")\n            if key is not None:\n                cfg = cfg[key]\n            with parser_context(lenient_check=True):\n                sys.stdout.write(subparser.dump(cfg, **dump_kwargs))\n", "            dump_kwargs = parser.print_config\n            if key is not None:\n                cfg = cfg[key]\n            with parser_context(lenient_check=True):\n                sys.stdout.write(subparser.dump(cfg, **dump_kwargs))\n            delattr(parser, \"print_config\")\n", "C09.b"),
         ("TYPE_CHECKING names shared by all visitors again", "_postponed_annotations.py", "    def __init__(self) -> None:\n        self.type_checking_names: List[str] = []\n", "    type_checking_names: List[str] = []\n", "C09.c"),
